@@ -899,6 +899,41 @@ def misc_bugclasses(prog, cfg_of_):
                             f"'{stmt_text(n, 70)}' keys a dict by the groupby key of an input that is not sorted by it: "
                             f"groupby only groups ADJACENT items, so when items of one key are interleaved with others "
                             f"the dict keeps the last run and the earlier ones are silently dropped"))
+    # NAMEFOLD: names (asset, step, attacker, type and full names) are identifiers: two of them are the same only if they
+    # are equal character by character.  Folding case or trimming blanks before comparing / keying / storing
+    # (`x.name.strip().lower()`) maps distinct names onto one: lookups return another object, an index slot is shared,
+    # a name comes back changed from a file
+    for f in prog.all_funcs():
+        if f.module.generated:
+            continue
+        pm_ = None
+        for n in own_nodes(f.node):
+            if isinstance(n, ast.Call) and isinstance(n.func, ast.Attribute) and not n.args and not n.keywords \
+                    and n.func.attr in ('lower', 'casefold', 'upper', 'strip', 'lstrip', 'rstrip', 'title', 'swapcase', 'capitalize'):
+                recv = stmt_text(n.func.value, 200)
+                if not any(w in recv for w in ('name', 'Name', 'type', 'metaConcept')):
+                    continue
+                if isinstance(n.func.value, ast.Subscript) and isinstance(n.func.value.slice, ast.Constant) \
+                        and isinstance(n.func.value.slice.value, int):
+                    continue        # one character of a name (`n[0].lower() + n[1:]`): a spelling rule, not a fold
+                if pm_ is None:
+                    pm_ = {}
+                    for x_ in ast.walk(f.node):
+                        for ch_ in ast.iter_child_nodes(x_):
+                            pm_[id(ch_)] = x_
+                cur_, in_log = pm_.get(id(n)), False
+                while cur_ is not None and not isinstance(cur_, ast.stmt):
+                    if isinstance(cur_, ast.Call) and isinstance(cur_.func, ast.Attribute) and isinstance(cur_.func.value, ast.Name) \
+                            and cur_.func.value.id in ('logger', 'logging'):
+                        in_log = True
+                    cur_ = pm_.get(id(cur_))
+                if in_log or isinstance(cur_, ast.Raise):
+                    continue
+                out.append((f, n, 'NAMEFOLD',
+                            f"'{stmt_text(n, 60)}' folds a name before it is compared, used as a key or stored: names that "
+                            f"differ only in case / surrounding blanks ('Web' and 'web', 'db ' and 'db') become the same "
+                            f"identifier - the wrong object is found, an index entry is overwritten, or the name read "
+                            f"back differs from the one written"))
     # STRIPSET: str.strip / lstrip / rstrip take a SET of characters, not a prefix / suffix: `s.rstrip('.attacker')`
     # goes on removing any of . a t c k e r from the end ('write.attacker' -> 'wri')
     for f in prog.all_funcs():
